@@ -1,5 +1,6 @@
 import DilithiumVerif.Impl.PolyVec
 import DilithiumVerif.Lemmas.Basic
+import DilithiumVerif.Lemmas.Rej
 /-
   C17 — Samplers are the specification's functions of their seeds and stay in range.
   Part 1: the byte-level acceptance maps and their ranges.
@@ -38,5 +39,16 @@ theorem block_counts : UNIFORM_NBLOCKS = 5 ∧ (UNIFORM_NBLOCKS * R128) % 3 = 0 
 /-- nonce layout of the vector samplers (ExpandA / ExpandMask indices fit in 16 bits) -/
 theorem matrix_nonce (i j : Nat) (hi : i < 8) (hj : j < 7) : (asU16 (((i <<< 8) + j : Nat) : Int)).toNat = 256 * i + j := by
   unfold asU16; rw [Nat.shiftLeft_eq]; omega
+
+/-- The byte-level rejection routine, for ANY buffer (also one too short to fill the output, a trailing partial
+    sample, alen = 0): it returns exactly the accepted 23-bit candidates of the first `buflen` bytes, read three at a
+    time in order, stopping after `alen` of them; the count is the number of values written; every value is in [0, q). -/
+theorem rej_uniform_spec (alen acap : Nat) (buf : List Nat) (buflen : Nat) (hb : buflen ≤ buf.length) (hc : alen ≤ acap) :
+    rej_uniform alen acap buf buflen = .ok (rejSpec alen (buf.take buflen) []) ∧
+    (∀ x ∈ rejSpec alen (buf.take buflen) [], 0 ≤ x ∧ x < Q) ∧ (rejSpec alen (buf.take buflen) []).length ≤ alen := by
+  refine ⟨rej_uniform_eq alen acap buf buflen hb hc, ?_⟩
+  exact rejSpec_range alen (buf.take buflen) [] (by simp) (by simp)
+
+example : rej_uniform 256 256 [0xFF, 0xFF, 0xFF, 0x01, 0x00, 0x00, 0x00, 0xE0, 0x7F, 0x05] 10 = .ok [1, 8380416] := by decide
 
 end DV.C17
